@@ -8,6 +8,14 @@ ROOT = os.path.dirname(os.path.dirname(os.path.abspath(__file__)))
 
 # id -> (engine, category, technique, text, note, design_ref)
 CHECKS = {
+    "C14": dict(engine="enum", category="fault_enumeration", design_ref="DESIGN.md section 7 C14",
+        technique="exhaustive crash-point enumeration: every byte-offset truncation of every file produced from a systematically enumerated family of packet sequences / interface / option values, plus whole-file round trips through every read call and a differential read with libpcap",
+        text="About 2000 [thorough more] capture files are produced with the real writers (classic pcap micro/nano: all 1- and 2-packet [3-packet] sequences over 8 data lengths x 3 wire-length surpluses x 5 timestamps incl. 2^31-1 and 2^32-1 s; pcapng: every interface and section string at lengths 0,1,3,4,5, snap lengths, if_tsoffset, the full product of comment/hash/verdict lists incl. empty values and lengths not a multiple of 4, 1-3 interfaces with equal or mixed link types). Each file is read back with every read call and must return the same packets, lengths, timestamps, interfaces, options; for EVERY byte offset the prefix must yield exactly the packets whose record lies wholly inside it, unaltered, then io.EOF/io.ErrUnexpectedEOF; libpcap must read the same packets from the files it accepts.",
+        note="Trusted: libpcap of the image for the differential clause. Known finding: if_tsoffset is announced but not subtracted by the writer (the repository's own test asserts the shifted value)."),
+    "C15": dict(engine="enum", category="fault_enumeration", design_ref="DESIGN.md section 7 C15",
+        technique="bounded-exhaustive input deviation enumeration (every truncation, byte, 16/32-bit field overwrite in both byte orders) and exhaustive stream-fault enumeration (every chunking position, every injected-error position) on the real readers, in crash/hang/OOM-attributing worker subprocesses with per-call allocation accounting",
+        text="Every repository capture file up to 1.7 kB [thorough 3 kB] (pcap, pcapng little/big endian), two synthetic snoop files and gzip-wrapped copies; deviation <= 1: unmodified, every truncation, every byte x 24 values, every aligned 32-bit word x 16 values and 16-bit word x 7 values in both byte orders; read to the end with the matching reader (pcapng with 3 option sets) alternating copying/zero-copy/with-options calls, and again in reads of 1, 3, 7 bytes. On unmodified seeds: 7 constant read sizes, one short read at every offset, one injected error (plain, net.Error timeout) at every read call. Per call: no panic, no stall, no worker death, <= bytes+16 calls, len(data)=CaptureLength<=Length, allocation <= 4*(stream bytes+declared snap length)+1MiB, identical results under every chunking, injected errors surface, earlier packets unchanged.",
+        note="Trusted: runtime/metrics allocation counter; 6 GiB address-space limit and 120 s watchdog per worker. With a declared snap length above 16 MiB only the copying read calls are used (a buffer-reusing read sizes its buffer to the declared snap length by design)."),
     "C13": dict(engine="enum", category="exploration", design_ref="DESIGN.md section 7 C13",
         technique="exhaustive enumeration of fragment arrival sequences (all partitions x all permutations x duplicates x interleavings; all hostile sequences up to a depth) on the real defragmenters with provenance-encoding payloads",
         text="IPv4: every composition of a datagram of 1..7 [thorough 8] 8-byte units into fragments x every arrival order x header lengths {20,24,40,60} x one duplicated fragment at every position, and every merge with a second datagram's fragments for small N: nothing returned before the last missing fragment, then exactly one datagram with the original payload (bytes encode datagram id and offset), MF/offset cleared, Length = IHL*4 + payload. Every sequence of <=4 [5] fragments over all ranges x MF of a 6-unit datagram (hostile: holes, overlaps, conflicting finals): any datagram returned consists only of received bytes at their own offsets. Limits (undersized, offset > 8183, overrun, long lists), pass-through of unfragmented/DF packets as the same pointer, DiscardOlderThan before/at the cut-off. IPv6: all compositions x orders x duplicates for N<=6 [7].",
